@@ -20,7 +20,7 @@ CHECKS = {
          "Every call into uflow runs under catch_unwind and a wall-clock watchdog; panics located in uflow (including failed debug assertions and arithmetic overflow in the simulation profile) and calls that do not return are violations, each with a minimised replay. Hostile frames come from a raw encoder covering every field's encodable range."),
  "C04": ("seeded DST with the payload length swept by run index; fragment permutation/duplication/partial loss + a rewriting middlebox; oracle = byte-exact delivery, frame size <= 1472, completeness after heal", A,
          "The boundary set of lengths (0, 1, around every multiple of 1448 up to 8, 16, 45 fragments, 63-65 / 127-129 / 191-193 / 255-257 fragments, 1 MB) is covered completely in every tier; delivered packets are compared byte for byte; a hostile middlebox appends header-disagreeing fragments for packets in progress."),
- "C06": ("seeded DST: (a) hostile never-completing streams (among them one packet of 52-100 % of the limit growing fragment by fragment in order) against a receiver whose heap is measured by the harness allocator, (b) genuine pairs with the sender's outstanding packets modelled from trace taps, (c) real Client/Server pairs with unequal limits: incompatible pairs are refused in the handshake, the negotiated allocation is the advertised one", A,
+ "C06": ("seeded DST: (a) hostile never-completing streams (among them one packet of 52-100 % of the limit growing fragment by fragment in order) against a receiver whose heap is measured by the harness allocator, (b) genuine pairs with the sender's outstanding packets modelled from trace taps, (c) real Client/Server pairs with unequal limits, on a clean link and under handshake faults: incompatible pairs are refused in the handshake, the negotiated allocation and rate are the advertised ones", A,
          "Receiver: allocator-measured bytes attributed to the victim stay within the fragment-rounded limit plus a constant bookkeeping budget, its own counter stays within the limit, the acknowledgement queue stays bounded. Sender: packets numbered and not yet below the accepted window base never exceed the advertised allocation (fragment-rounded) nor 4096; a genuine receiver never discards a packet for lack of memory."),
  "C12": ("seeded DST; wire-log oracle attributing every (packet id, fragment id) emission to its submission and mode", A,
          "Unreliable/TimeSensitive fragments appear at most once; a TimeSensitive packet is begun no later than the first step() after send(); nothing is emitted again in a call later than the one that processed its acknowledgement or the receiver's window passing the packet."),
